@@ -253,9 +253,17 @@ func (c *tunnelChannel) Invoke(ctx context.Context, methodName string, req, resp
 		return err
 	}
 	if err := str.SendMsg(req); err != nil {
+		// The RPC is over: finish the stream (otherwise it stays open until
+		// ctx is cancelled) and wait until it is finished, since a concurrent
+		// finish may still be writing to the grpc.Trailer call option targets,
+		// which the caller may read as soon as we return.
+		str.cancelStream(err)
+		<-str.doneSignal
 		return err
 	}
 	if err := str.CloseSend(); err != nil {
+		str.cancelStream(err)
+		<-str.doneSignal
 		return err
 	}
 	err = str.RecvMsg(resp)
